@@ -57,7 +57,7 @@ func c01Opts(c *rt.C) EngOpt {
 func c01BackupWhileRead(c *rt.C) {
 	r := c.Rng
 	mem := memModes()[c.Index%3]
-	delta := (c.Index/8)%2 == 0
+	delta := (c.Index/16)%2 == 0
 	kv := r.Intn(2) == 0
 	db := OpenDB(DBOpt{Mem: mem, KV: kv, Delta: delta})
 	nk := pick(r, 5, 20, 80)
@@ -72,6 +72,15 @@ func c01BackupWhileRead(c *rt.C) {
 	if r.Intn(2) == 0 {
 		early = t.S.NewIterator() // an iterator that exists before the backup starts
 	}
+	failingVisit := (c.Index/16)%3 != 1 && len(t.Want) > 0
+	if failingVisit {
+		// a Visitor pass whose callback fails in every shard must leave the snapshot's references alone
+		verr := db.N.Visitor(t.S, func(*nitro.Item, int) error { return fmt.Errorf("injected callback failure") }, pick(r, 1, 4, 16), pick(r, 1, 2, 8))
+		if verr == nil {
+			c.Count("other_property_oracle_fired", 1) // C10's subject
+		}
+	}
+	witness["failing_visitor_first"] = failingVisit
 	if err := db.N.StoreToDisk(filepath.Join(c.Tmp, "bk"), t.S, pick(r, 1, 2, 8), nil); err != nil {
 		c.Inconclusive("StoreToDisk failed: " + err.Error())
 		return
@@ -102,7 +111,7 @@ func c01BackupWhileRead(c *rt.C) {
 			return
 		}
 	}
-	c.Sig("backup-while-read/delta=%v/mem=%s/iter-before=%v/n=%s", delta, mem, early != nil, sizeClass(len(t.Want)))
+	c.Sig("backup-while-read/delta=%v/mem=%s/iter-before=%v/failing-visitor-first=%v/n=%s", delta, mem, early != nil, failingVisit, sizeClass(len(t.Want)))
 	if early != nil {
 		early.Close()
 	}
@@ -113,6 +122,13 @@ func c01BackupWhileRead(c *rt.C) {
 
 func runC01(c *rt.C) {
 	if c.Index%8 == 3 {
+		if c.Index%16 == 11 {
+			// nodes chained through the library's NodeList, one deleted an epoch later: collecting
+			// it must not touch what a newer open snapshot still shows
+			nodeListLifecycle(c, memModes()[(c.Index/16)%3], true)
+			c.Evals(1)
+			return
+		}
 		c01BackupWhileRead(c)
 		return
 	}
